@@ -9,11 +9,13 @@ T = {
  "C03-A": ("C03", "controller/control.go UpdateVolStatus: threshold (RF+q+1)/2", "even RF (2 or 4) with exactly RF/2 replicas RW", "C03 quick (readonly-flag-wrong)"),
  "C03-B": ("C03", "controller/replicator.go SetMode: StopMonitoring dropped for ERR", "a replica marked ERR by snapshot/resize failure or operator set-mode (not by an I/O error)", "C03 quick (readonly flag / controller crash on the lingering ERR backend), C18 settle rule"),
  "C04-A": ("C04", "controller/replicator.go ReadAt: fail-over loop does not wrap around", ">=2 RW replicas, read error on the chosen one while the cursor is on the last reader slot", "C04 quick (read-failed-with-healthy-RW)"),
- "C04-B": ("C04", "controller/control.go handleErrorNoLock: 'good replica' test != ERR instead of == RW", "rebuild in progress (WO attached) and every RW replica failing the same read", "NOT CAUGHT: at the initiator boundary the read still fails (ReadAt returns n=0, which the gotgt backing store treats as an incomplete read); see DESIGN.md 8"),
+ "C04-B": ("C04", "controller/control.go handleErrorNoLock: 'good replica' test != ERR instead of == RW", "rebuild in progress (WO attached) and every RW replica failing the same read", "C04 quick (read-returned-short-without-error)"),
  "C05-A": ("C05", "controller/multi_writer_at.go Sync: replicaErrCount < n/2", "odd number of writers (3/5) and a replica failure first observed by a Sync", "C05 quick (minority-failure-surfaced:sync)"),
  "C05-B": ("C05", "controller/replicator.go WriteAt: readerIndex instead of writerIndex (write path only)", "WO replica attached and a write failing on it", "C05 quick (failed-replica-still-attached)"),
- "C06-A": ("C06", "replica/diff_disk.go RemoveIndex: SnapIndx arithmetic with reversed comparison", "reclamation on, user snapshot U with >=3 snapshots above, deletion of a middle one above U, then overwrite of a U-owned block", "C06 thorough (snapshot:changed); not within the quick tier's 96 histories at seeds 1-2"),
+ "C06-A": ("C06", "replica/diff_disk.go RemoveIndex: SnapIndx arithmetic with reversed comparison", "reclamation on, user snapshot U with >=3 snapshots above, deletion of a middle one above U, then overwrite of a U-owned block", "C06 quick (structure:user-snapshot-outside-reclamation-boundary); behavioural oracle at thorough (snapshot:changed)"),
  "C06-B": ("C06", "replica/server.go UpdateLUNMap: flush guard uses fileIndx instead of prevHoleFileIndx", "reload without preload + UpdateLUNMap with writes landing between extent scan and merge, covering a U-owned block followed by an A-owned block", "C06 quick (snapshot:changed:lunmap) via log-hook window injection"),
+ "C07-A": ("C07", "controller/control.go addReplicaNoLock: second canAdd reduced to hasReplica", "RF>=3 and two add requests overlapping inside factory.Create (the add signals after a start)", "C07 quick (more-than-one-WO during bring-up)"),
+ "C07-B": ("C07", "replica/backup.go preload: post-loop flush guard >= instead of >", "user snapshot, later overwrites of its blocks, a rebuild while the source keeps running, inspection of the snapshot content", "C07 quick (promotion:stored-image-differs:snapshot)"),
  "C08-A": ("C08", "replica/replica.go linkDisk: os.Link replaced by os.Rename", "process death or a failing call between the first rename and the publication of volume.meta during a snapshot", "C08 quick (snapshot:kill-before / ENOSPC ... state-bad)"),
  "C08-B": ("C08", "replica/replica.go revertDisk: fallback re-encodes the new info instead of r.info", "one transient ENOSPC/EIO on the volume.meta update inside Revert, then process death", "C08 quick (revert:ENOSPC:...:failure-before-commit-left-new-state)"),
  "C09-A": ("C09", "controller/control.go registerReplica: MaxRevReplica cleared before the delete of the dead leader", "RF>=3, elected leader dies before /start, a lower-revision replica re-registers before another up-to-date one", "C09 quick (start-signal-before-majority, with the reachable-majority rule)"),
@@ -21,7 +23,7 @@ T = {
  "C10-A": ("C10", "replica/revision_counter.go increaseRevisionCounter: file write outside the lock", ">=2 concurrent writers on one replica", "C10 quick (rev:concurrent-sample-out-of-bounds / rev:count-differs)"),
  "C10-B": ("C10", "replica/revision_counter.go SetRevisionCounter: no-op when cache >= counter", "promotion of a replica whose own counter is higher than the source's", "C10 quick (rev:count-differs after an explicit lower set)"),
  "C11-A": ("C11", "sync/sync.go GetDeleteCandidateChain: merge-target guard reads the candidate's Removed flag", "a marked-removed candidate directly above a retained user snapshot", "C11 quick (candidates:forbidden:merge target ...)"),
- "C11-B": ("C11", "sync/sync.go InternalSnapshotCleaner: 'err :=' shadows the loop error", "the fold step failing for the snapshot the cleaner picked", "NOT CAUGHT: the 60 s ticker loop of the cleaner is not run by the C11 check (its body is executed step by step); see DESIGN.md 8"),
+ "C11-B": ("C11", "sync/sync.go InternalSnapshotCleaner: 'err :=' shadows the loop error", "the fold step failing for the snapshot the cleaner picked", "C11 quick (after-deletion:C01:fullread:mismatch in the real cleaner-loop scenario)"),
  "C12-A": ("C12", "replica/server.go Revert: closes the replaced Replica (stale volume.meta written back)", "successful revert, then process death before the next metadata write, then restart", "C12 quick (reload:error / reopen failure after revert)"),
  "C12-B": ("C12", "replica/replica.go createDisk: chain-limit check off by two", "chain filled to MAX_CHAIN_LENGTH plus one snapshot, then reopen", "C12 quick (reopen:open-failed:snapshot) with small MAX_CHAIN_LENGTH cases"),
  "C13-A": ("C13", "controller/control.go UpdateCheckpoint: checkpoint assigned before the fan-out and kept on failure", "all RF RW, a membership event, set-checkpoint failing on a strict subset of healthy replicas", "C13 quick (checkpoint-not-persisted)"),
